@@ -846,6 +846,7 @@ class Unit:
         self.cur_fn = None
         self.name = os.path.basename(template_path).replace(".vx.rs", "")
         self.unit_text_all = open(template_path).read()
+        self.dropped_hints = []      # (function, directive) of proof hints whose anchor was not found
 
     def rf(self, rel):
         if rel not in self.files:
@@ -1321,10 +1322,16 @@ class Unit:
             ms = list(re.finditer(relax(pr["re"]), body, re.M))
             if pr.get("nth"):
                 if len(ms) < pr["nth"]:
-                    raise ExtractError("anchor lost: //@proof /%s/ #%d in %s matched %d times" % (pr["re"], pr["nth"], name, len(ms)))
+                    # a proof hint whose anchor is gone is left out (hints only ADD checked facts, so this can only make the
+                    # proof harder, never unsound); if the function then fails, the driver reports UNDECIDED, not a violation
+                    self.dropped_hints.append((name, "//@proof /%s/ #%d matched %d times" % (pr["re"], pr["nth"], len(ms))))
+                    rw.count("proof hint left out (anchor lost)")
+                    continue
                 mm = ms[pr["nth"] - 1]
             elif len(ms) != 1:
-                raise ExtractError("anchor lost: //@proof /%s/ in %s matched %d times" % (pr["re"], name, len(ms)))
+                self.dropped_hints.append((name, "//@proof /%s/ matched %d times" % (pr["re"], len(ms))))
+                rw.count("proof hint left out (anchor lost)")
+                continue
             else:
                 mm = ms[0]
             if pr["where"] == "before":
